@@ -112,7 +112,7 @@ Variable bs : bytes.
 
 Hypothesis Hpattern : forall els V T used c nx p n,
   pok els = true -> vlay els V -> after_value T used c nx -> at_ bs p (V ++ T) ->
-  length (V ++ T) + 2 * c + 12 <= n ->
+  3 * length (V ++ T) + 12 <= n ->
   exists els', get_pattern bs n p = Ok (Some (Pattern els')) (used + (length V + p)) /\ rel els' els.
 
 (* a value layout starts with spaces; what follows them is a layout again and does not start with a space *)
@@ -132,7 +132,7 @@ Inductive gattrs_at : list attribute -> bytes -> bytes -> nat -> nat -> Prop :=
 
 Lemma g_get_attribute_at aid els k1 V T used c R p n :
   wf_identifier aid = true -> pok els = true -> vlay els V -> after_value T used c R ->
-  at_ bs p (aid ++ sp k1 ++ 61%N :: V ++ T) -> length (V ++ T) + 2 * c + 12 <= n ->
+  at_ bs p (aid ++ sp k1 ++ 61%N :: V ++ T) -> 3 * length (V ++ T) + 2 * c + 12 <= n ->
   exists els', get_attribute bs n p =
                Ok (Attribute aid (Pattern els')) (used + (length (aid ++ sp k1 ++ 61%N :: V) + p)) /\ rel els' els.
 Proof.
@@ -144,7 +144,7 @@ Proof.
   pose proof (at_app _ _ _ _ H1) as H2. rewrite sp_length in H2.
   step (expect_byte_yes bs _ 61 _ H2).
   pose proof (at_cons _ _ _ _ H2) as H3.
-  destruct (Hpattern els V T used c R _ n Hv HV HT H3 Hn) as (els' & Ep & Hrel).
+  destruct (Hpattern els V T used c R _ n Hv HV HT H3 ltac:(lia)) as (els' & Ep & Hrel).
   exists els'. split; [|exact Hrel]. step Ep.
   unfold ret. f_equal. rewrite !app_length, sp_length. cbn [length]. lia.
 Qed.
@@ -153,7 +153,7 @@ Lemma after_value_len T used c R : after_value T used c R -> length T = used + l
 Proof. intros [|x c' BL nx Hx HBL Hn]; [reflexivity|]. rewrite !app_length. lia. Qed.
 
 Lemma g_get_attributes_at attrs R next cm len : gattrs_at attrs R next cm len -> entry_start_bytes next ->
-  forall acc p n, at_ bs p R -> length R + 2 * cm + 14 <= n ->
+  forall acc p n, at_ bs p R -> 3 * length R + 2 * cm + 14 <= n ->
   exists attrs', get_attributes bs n acc p = Ok (rev acc ++ attrs') (len + p) /\ Forall2 rel_attr attrs' attrs /\
                  at_ bs (len + p) next.
 Proof.
@@ -169,7 +169,7 @@ Proof.
     pose proof (after_value_len T used c R HT) as HlenT.
     rewrite (app_length (sp (S k))), sp_length in Hn. cbn [length] in Hn. rewrite !app_length in Hn. cbn [length] in Hn.
     rewrite !app_length in Hn.
-    assert (Hc : length (V ++ T) + 2 * c + 12 <= n) by (rewrite app_length; lia).
+    assert (Hc : 3 * length (V ++ T) + 2 * c + 12 <= n) by (rewrite app_length; lia).
     destruct (g_get_attribute_at aid els k1 V T used c R _ n Hid Hv HV HT H2 Hc) as (els' & Hga & Hrel).
     cbn [negb]. step (try_ok _ _ _ _ Hga).
     assert (H3 : at_ bs (used + (length (aid ++ sp k1 ++ 61%N :: V) + S (S k + p))) R).
@@ -253,7 +253,7 @@ Lemma g_get_message id els attrs k V A T used c next p n entry_start :
   wf_identifier id = true -> pok els = true -> forallb g_attribute attrs = true ->
   vlay els V -> gattrs_layout attrs A -> entry_tail T used c next ->
   at_ bs p ((id ++ sp k ++ 61%N :: V ++ A) ++ T) ->
-  length ((id ++ sp k ++ 61%N :: V ++ A) ++ T) + 2 * c + 14 <= n ->
+  3 * length ((id ++ sp k ++ 61%N :: V ++ A) ++ T) + 2 * c + 14 <= n ->
   exists els' attrs',
     get_message bs n entry_start p =
     Ok (Message id (Some (Pattern els')) attrs' None) (used + (length (id ++ sp k ++ 61%N :: V ++ A) + p)) /\
@@ -263,8 +263,8 @@ Proof.
   destruct (gattrs_tail attrs A T used c next HA Hattrs HT) as (used' & c' & R & cm & len & HT' & HAt & HR & Hc' & Hcm & Hlen).
   pose proof (after_value_len _ _ _ _ HT') as HlenAT. rewrite app_length in HlenAT.
   rewrite !app_length in Hn. cbn [length] in Hn. rewrite !app_length in Hn.
-  assert (Hfuel1 : length (V ++ A ++ T) + 2 * c' + 12 <= n) by (rewrite !app_length; lia).
-  assert (Hfuel2 : length R + 2 * cm + 14 <= n) by lia.
+  assert (Hfuel1 : 3 * length (V ++ A ++ T) + 2 * c' + 12 <= n) by (rewrite !app_length; lia).
+  assert (Hfuel2 : 3 * length R + 2 * cm + 14 <= n) by lia.
   destruct (sp_eq_head k (V ++ A ++ T)) as [Hh1 Hh2].
   assert (H0 : at_ bs p (id ++ sp k ++ 61%N :: V ++ A ++ T)).
   { rewrite <- !app_assoc in H. cbn [app] in H. rewrite <- ?app_assoc in H. exact H. }
@@ -274,7 +274,7 @@ Proof.
   pose proof (at_app _ _ _ _ H1) as H2. rewrite sp_length in H2.
   step (expect_byte_yes bs _ 61 _ H2).
   pose proof (at_cons _ _ _ _ H2) as H3.
-  destruct (Hpattern els V (A ++ T) used' c' R _ n Hv HV HT' H3 Hfuel1) as (els' & Ep & Hrel).
+  destruct (Hpattern els V (A ++ T) used' c' R _ n Hv HV HT' H3 ltac:(lia)) as (els' & Ep & Hrel).
   step Ep.
   pose proof (after_value_next bs _ _ _ _ HT' _ (at_app _ _ _ _ H3)) as H4.
   step (skip_blank_block_none bs _ R H4 HR).
@@ -290,7 +290,7 @@ Lemma g_get_message_novalue id attrs k A T used c next p n entry_start :
   wf_identifier id = true -> forallb g_attribute attrs = true -> attrs <> [] ->
   gattrs_layout attrs A -> entry_tail T used c next ->
   at_ bs p ((id ++ sp k ++ 61%N :: A) ++ T) ->
-  length ((id ++ sp k ++ 61%N :: A) ++ T) + 2 * c + 14 <= n ->
+  3 * length ((id ++ sp k ++ 61%N :: A) ++ T) + 2 * c + 14 <= n ->
   exists attrs',
     get_message bs n entry_start p = Ok (Message id None attrs' None) (used + (length (id ++ sp k ++ 61%N :: A) + p)) /\
     Forall2 rel_attr attrs' attrs.
@@ -301,7 +301,7 @@ Proof.
   rewrite !app_length in Hn. cbn [length] in Hn. rewrite ?app_length in Hn.
   assert (HlenAT : length A + length T = length x + length (sp (S s) ++ b :: t)).
   { rewrite <- !app_length, E. reflexivity. }
-  assert (Hfuel2 : length (sp (S s) ++ b :: t) + 2 * c + 14 <= n) by lia.
+  assert (Hfuel2 : 3 * length (sp (S s) ++ b :: t) + 2 * c + 14 <= n) by lia.
   destruct (sp_eq_head k (A ++ T)) as [Hh1 Hh2].
   assert (H0 : at_ bs p (id ++ sp k ++ 61%N :: A ++ T)).
   { rewrite <- !app_assoc in H. cbn [app] in H. rewrite <- ?app_assoc in H. exact H. }
@@ -327,7 +327,7 @@ Lemma g_get_term id els attrs k V A T used c next p n entry_start :
   wf_identifier id = true -> pok els = true -> forallb g_attribute attrs = true ->
   vlay els V -> gattrs_layout attrs A -> entry_tail T used c next ->
   at_ bs p ((45%N :: id ++ sp k ++ 61%N :: V ++ A) ++ T) ->
-  length ((45%N :: id ++ sp k ++ 61%N :: V ++ A) ++ T) + 2 * c + 14 <= n ->
+  3 * length ((45%N :: id ++ sp k ++ 61%N :: V ++ A) ++ T) + 2 * c + 14 <= n ->
   exists els' attrs',
     get_term bs n entry_start p =
     Ok (Term id (Pattern els') attrs' None) (used + (length (45%N :: id ++ sp k ++ 61%N :: V ++ A) + p)) /\
@@ -337,7 +337,7 @@ Proof.
   destruct (gattrs_tail attrs A T used c next HA Hattrs HT) as (used' & c' & R & cm & len & HT' & HAt & HR & Hc' & Hcm & Hlen).
   pose proof (after_value_len _ _ _ _ HT') as HlenAT. rewrite app_length in HlenAT.
   cbn [app length] in Hn. rewrite !app_length in Hn. cbn [length] in Hn. rewrite !app_length in Hn.
-  assert (Hfuel2 : length R + 2 * cm + 14 <= n) by lia.
+  assert (Hfuel2 : 3 * length R + 2 * cm + 14 <= n) by lia.
   assert (H0 : at_ bs p (45%N :: id ++ sp k ++ 61%N :: V ++ A ++ T)).
   { cbn [app] in H. rewrite <- !app_assoc in H. cbn [app] in H. rewrite <- ?app_assoc in H. exact H. }
   step (expect_byte_yes bs p 45 _ H0).
@@ -351,12 +351,12 @@ Proof.
   pose proof (at_cons _ _ _ _ H2) as H3.
   destruct (Hstrip els V Hv HV) as (kv & V0 & -> & HV0 & Hhead).
   rewrite app_length, sp_length in Hn.
-  assert (Hfuel1 : length ((sp 0 ++ V0) ++ A ++ T) + 2 * c' + 12 <= n).
+  assert (Hfuel1 : 3 * length ((sp 0 ++ V0) ++ A ++ T) + 2 * c' + 12 <= n).
   { cbn [sp repeat app]. rewrite !app_length. lia. }
   rewrite <- app_assoc in H3.
   step (skip_blank_inline_sp bs _ kv _ H3 (Hhead (A ++ T))).
   pose proof (at_app _ _ _ _ H3) as H3'. rewrite sp_length in H3'.
-  destruct (Hpattern els (sp 0 ++ V0) (A ++ T) used' c' R _ n Hv HV0 HT' H3' Hfuel1) as (els' & Ep & Hrel).
+  destruct (Hpattern els (sp 0 ++ V0) (A ++ T) used' c' R _ n Hv HV0 HT' H3' ltac:(lia)) as (els' & Ep & Hrel).
   step Ep.
   pose proof (after_value_next bs _ _ _ _ HT' _ (at_app _ _ _ _ H3')) as H4.
   step (skip_blank_block_none bs _ R H4 HR).
@@ -516,7 +516,7 @@ Qed.
 (* get_entry on a printed message or term of the fragment *)
 Lemma g_get_entry e E T used c next p n :
   g_plain_entry e = true -> is_comment_entry e = false -> gplain_layout e E -> entry_tail T used c next ->
-  at_ bs p (E ++ T) -> length (E ++ T) + 2 * c + 14 <= n ->
+  at_ bs p (E ++ T) -> 3 * length (E ++ T) + 2 * c + 14 <= n ->
   exists e', get_entry bs n p p = Ok e' (used + (length E + p)) /\ rel_entry e' e.
 Proof.
   intros He Hnc HE HT H Hn. unfold get_entry. rewrite bind_current_byte.
@@ -554,7 +554,7 @@ Qed.
 (* one entry of the fragment and the blank lines after it *)
 Lemma g_entry_step e E T used c S' p n :
   g_plain_entry e = true -> gplain_layout e E -> entry_tail T used c S' -> follows_ok e c S' ->
-  at_ bs p (E ++ T) -> length (E ++ T) + 2 * c + 14 <= n ->
+  at_ bs p (E ++ T) -> 3 * length (E ++ T) + 2 * c + 14 <= n ->
   exists e' p1 cnt, get_entry bs n p p = Ok e' p1 /\ rel_entry e' e /\
                  skip_blank_block bs p1 = Ok cnt (used + (length E + p)) /\
                  (1 <= c -> is_comment_entry e = true -> cnt = S c) /\ cnt <= S c.
@@ -597,7 +597,7 @@ Qed.
 (* one turn of the main loop on a printed entry without attached comment *)
 Lemma g_parse_loop_turn e E T used c S' p n body pending cnt :
   g_plain_entry e = true -> gplain_layout e E -> entry_tail T used c S' -> follows_ok e c S' ->
-  at_ bs p (E ++ T) -> length (E ++ T) + 2 * c + 14 <= n ->
+  at_ bs p (E ++ T) -> 3 * length (E ++ T) + 2 * c + 14 <= n ->
   exists e' cnt', rel_entry e' e /\
     parse_loop bs (S n) body [] pending cnt p =
     parse_loop bs n (fst (turn pending cnt e' body)) [] (snd (turn pending cnt e' body)) cnt' (used + (length E + p)) /\
@@ -739,7 +739,7 @@ End Parse.
 Lemma g_parse_layout t bs :
   (forall els V T used c nx p n,
       pok els = true -> vlay els V -> after_value T used c nx -> at_ bs p (V ++ T) ->
-      length (V ++ T) + 2 * c + 12 <= n ->
+      3 * length (V ++ T) + 12 <= n ->
       exists els', get_pattern bs n p = Ok (Some (Pattern els')) (used + (length V + p)) /\ rel els' els) ->
   (forall els V, pok els = true -> vlay els V ->
       exists k V0, V = sp k ++ V0 /\ vlay els (sp 0 ++ V0) /\ forall T, head_not is_space (V0 ++ T)) ->
@@ -999,7 +999,7 @@ Theorem g_parse_render_rel pok vlay rel cs t :
      exists V cs', render_value ind (Pattern els) cs = (V, cs') /\ vlay els V) ->
   (forall bs els V T used c nx p n,
       pok els = true -> vlay els V -> after_value T used c nx -> at_ bs p (V ++ T) ->
-      length (V ++ T) + 2 * c + 12 <= n ->
+      3 * length (V ++ T) + 12 <= n ->
       exists els', get_pattern bs n p = Ok (Some (Pattern els')) (used + (length V + p)) /\ rel els' els) ->
   (forall els V, pok els = true -> vlay els V ->
       exists k V0, V = sp k ++ V0 /\ vlay els (sp 0 ++ V0) /\ forall T, head_not is_space (V0 ++ T)) ->
@@ -1016,7 +1016,7 @@ Theorem g_parse_render pok vlay cs t :
      exists V cs', render_value ind (Pattern els) cs = (V, cs') /\ vlay els V) ->
   (forall bs els V T used c nx p n,
       pok els = true -> vlay els V -> after_value T used c nx -> at_ bs p (V ++ T) ->
-      length (V ++ T) + 2 * c + 12 <= n ->
+      3 * length (V ++ T) + 12 <= n ->
       exists els', get_pattern bs n p = Ok (Some (Pattern els')) (used + (length V + p)) /\ jrel els' els) ->
   (forall els V, pok els = true -> vlay els V ->
       exists k V0, V = sp k ++ V0 /\ vlay els (sp 0 ++ V0) /\ forall T, head_not is_space (V0 ++ T)) ->
